@@ -1,16 +1,18 @@
-(* C09, interleaved RLE: the end-to-end statement for the proved order kinds, and the trivial
-   encoder (every image has an encoding). *)
-From RdpV Require Import Base Buf Rle16 Rle32 Bitmap RefRle CodecLemmas CodecContent C08_proofs C09_proofs Rle16_proofs Rle16_sem_proofs.
+(* C09, interleaved RLE: the end-to-end statement for every order list of the grammar in every
+   legal serialisation, the trivial encoder (every image has an encoding), and an example using
+   all twelve order kinds obtained as an instance of the theorem. *)
+From RdpV Require Import Base Buf Rle16 Rle32 Bitmap RefRle CodecLemmas CodecContent C08_proofs C09_proofs Rle16_proofs Rle16_sem_proofs
+     RefRleLit RefRleLit_proofs.
 
 Ltac Zify.zify_post_hook ::= Z.div_mod_to_equations.
 
 Theorem rle16_exact p w h (rows : list (list N)) (os : list order) (bs : bytes) :
   w < 65536 -> h < 65536 -> 0 < w ->
   length rows = N.to_nat h -> uniform (N.to_nat w) rows ->
-  Forall (fun o => supported o = true) os -> serialises os bs -> sem w os = concat (rev rows) ->
+  serialises os bs -> sem w os = concat (rev rows) ->
   decompress p w h 16 true bs = ([4 * (w * h); 4 * (w * h)], Ok (bgra16 (concat rows))).
 Proof.
-  intros Hw Hh Hw0 Hrows Hunif Hsup Hser Hsem.
+  intros Hw Hh Hw0 Hrows Hunif Hser Hsem.
   pose proof (wh_b w h Hw Hh) as Hb.
   assert (Hrl : nlen (concat (rev rows)) = w * h).
   { unfold nlen. rewrite (length_concat_uniform (N.to_nat w)) by (apply uniform_rev; exact Hunif). rewrite rev_length, Hrows. lia. }
@@ -25,10 +27,10 @@ Proof.
   assert (HL : w * h <= L) by (subst L; lia).
   assert (HR0 : Rel w h L (mkSS [] 65535 false) s0).
   { unfold Rel, lazy, cont, init_st. subst s0. cbn [ss_out ss_fg ss_ins]. unfold init_st. prj.
-    split; [|split; [split; [intros H0; discriminate|discriminate]|split; [reflexivity|discriminate]]].
+    split; [|split; [split; [intros H0; discriminate|discriminate]|split; [reflexivity|split; [discriminate|reflexivity]]]].
     split; [apply blen_bmake|]. split; [intros r c Hc Hlt; rewrite nlen_nil in Hlt; lia|].
     split; [reflexivity|]. left. repeat split. }
-  destruct (main_sem p w h L Hw Hh Hw0 HL os bs Hser Hsup (mkSS [] 65535 false) s0 (S (length bs)) HR0) as (s' & E & HR').
+  destruct (main_sem p w h L Hw Hh Hw0 HL os bs Hser (mkSS [] 65535 false) s0 (S (length bs)) HR0) as (s' & E & HR').
   - subst s0. unfold init_st. prj. reflexivity.
   - fold (sem w os). rewrite Hsem, Hrl. lia.
   - lia.
@@ -57,6 +59,19 @@ Proof.
     + cbn [mbind lift app]. rewrite Ho. subst L. replace (w * h * 2 * 2) with (4 * (w * h)) by lia. reflexivity.
 Qed.
 
+(* the same under the literal reading of the MS-RDPBCGR pseudo-code (first-line flag frozen per order), for streams
+   none of whose orders straddles the end of the first scan line *)
+Theorem rle16_exact_literal p w h (rows : list (list N)) (os : list order) (bs : bytes) :
+  w < 65536 -> h < 65536 -> 0 < w ->
+  length rows = N.to_nat h -> uniform (N.to_nat w) rows ->
+  serialises os bs -> no_straddle w os = true -> lit_sem w os = concat (rev rows) ->
+  decompress p w h 16 true bs = ([4 * (w * h); 4 * (w * h)], Ok (bgra16 (concat rows))).
+Proof.
+  intros Hw Hh Hw0 Hrows Hunif Hser Hns Hsem.
+  apply (rle16_exact p w h rows os bs); try assumption.
+  rewrite <- (lit_sem_agrees w os bs Hw0 Hser Hns). exact Hsem.
+Qed.
+
 (* ---- every image has an encoding: one colour-image order per scan line *)
 Lemma ser_image_row (row : list N) :
   1 <= nlen row -> nlen row <= 65535 -> Forall (fun v => v < 65536) row ->
@@ -81,8 +96,7 @@ Qed.
 
 Lemma trivial_encoding w (rws : list (list N)) :
   0 < w -> w < 65536 -> uniform (N.to_nat w) rws -> Forall (fun r => Forall (fun v => v < 65536) r) rws ->
-  exists bs, serialises (map OImage rws) bs /\ Forall (fun o => supported o = true) (map OImage rws) /\
-             sem w (map OImage rws) = concat rws.
+  exists bs, serialises (map OImage rws) bs /\ sem w (map OImage rws) = concat rws.
 Proof.
   intros Hw0 Hw Hu Hp.
   assert (Hs : exists bs, serialises (map OImage rws) bs).
@@ -91,9 +105,8 @@ Proof.
     destruct (IH (Forall_inv_tail Hu) (Forall_inv_tail Hp)) as (bs & Hbs).
     destruct (ser_image_row r) as (f & b & Hb); try (unfold nlen; lia); try exact Hpr.
     exists (b ++ bs). cbn [map]. econstructor; eassumption. }
-  destruct Hs as (bs & Hbs). exists bs. split; [exact Hbs|]. split.
-  - apply Forall_forall. intros o Ho. apply in_map_iff in Ho. destruct Ho as (r & <- & _). reflexivity.
-  - unfold sem. rewrite sem_images. reflexivity.
+  destruct Hs as (bs & Hbs). exists bs. split; [exact Hbs|].
+  unfold sem. rewrite sem_images. reflexivity.
 Qed.
 
 Lemma widen_exact_u16 v : v < 65536 -> model_widen v = widen565 v.
@@ -107,12 +120,34 @@ Definition ex_orders : list (form * order) :=
 Definition ex_stream : bytes :=
   [99; 52; 18; 2; 3; 64; 4; 21; 246; 2; 0; 255; 0; 33; 130; 1; 0; 2; 0; 225; 7; 0; 8; 0; 249; 250; 253; 254; 208; 1; 15; 15; 2].
 
-(* all twelve order kinds, three header forms, two consecutive background runs (foreground insertion), a 4 x 10 image *)
+Lemma ser_all_serialises : forall l bs, ser_all l = Some bs -> serialises (map snd l) bs.
+Proof.
+  induction l as [|[f o] l IH]; intros bs E; cbn [ser_all] in E.
+  - inversion E. constructor.
+  - destruct (ser f o) as [b|] eqn:Eb; [|discriminate]. destruct (ser_all l) as [bs'|] eqn:El; [|discriminate].
+    inversion E. cbn [map snd]. econstructor; [exact Eb|apply IH; reflexivity].
+Qed.
+
+(* all twelve order kinds, three header forms, two consecutive background runs (foreground insertion), a 4 x 10
+   image: the stream is a serialisation of the order list (evaluation of the spec), and what the decoder returns
+   for it is an INSTANCE of rle16_exact *)
 Lemma ex_all_orders :
   ser_all ex_orders = Some ex_stream /\ nlen (sem 4 (map snd ex_orders)) = 40 /\
   snd (decompress Debug 4 10 16 true ex_stream) = Ok (bgra16 (flip_rows 4 10 (sem 4 (map snd ex_orders)))) /\
   snd (decompress Release 4 10 16 true ex_stream) = Ok (bgra16 (flip_rows 4 10 (sem 4 (map snd ex_orders)))).
-Proof. repeat split; vm_compute; reflexivity. Qed.
+Proof.
+  assert (Hser : ser_all ex_orders = Some ex_stream) by (vm_compute; reflexivity).
+  split; [exact Hser|]. split; [vm_compute; reflexivity|].
+  set (rows := rev (rows_of 4 10 (sem 4 (map snd ex_orders)))).
+  assert (Hex : forall p, decompress p 4 10 16 true ex_stream = ([4 * (4 * 10); 4 * (4 * 10)], Ok (bgra16 (concat rows)))).
+  { intros p. apply (rle16_exact p 4 10 rows (map snd ex_orders) ex_stream); try lia.
+    - vm_compute. reflexivity.
+    - subst rows. vm_compute. repeat constructor.
+    - apply ser_all_serialises. exact Hser.
+    - subst rows. vm_compute. reflexivity. }
+  unfold flip_rows. change (N.to_nat 4) with 4%nat. change (N.to_nat 10) with 10%nat. fold rows.
+  split; rewrite Hex; reflexivity.
+Qed.
 
 Definition ex_plane_a : list (list pseg) := [[PRaw [255; 255] 0; PLong 16]; [PRaw [0] 15; PRaw [] 0; PRaw [1; 2] 0]].
 Definition ex_plane_r : list (list pseg) := [[PRaw [10; 20; 30] 15]; [PLong 18]].
